@@ -2,7 +2,7 @@
    Statements only; proofs in proofs/AbftDfs.v AbftChain.v AbftSeal.v AbftProcess.v. *)
 From Coq Require Import NArith List.
 From LV Require Import model.VecIndex model.Abft model.AbftRun spec.AbftSpec
-  proofs.AbftDfs proofs.AbftDfsFuel proofs.AbftSeal proofs.AbftProcess proofs.AbftChain proofs.AbftRoots proofs.AbftRooted proofs.AbftSealWitness.
+  proofs.AbftDfs proofs.AbftDfsFuel proofs.AbftSeal proofs.AbftProcess proofs.AbftChain proofs.AbftRoots proofs.AbftRooted proofs.AbftRunInv proofs.AbftSealWitness.
 Import ListNotations.
 Local Open Scope N_scope.
 
@@ -59,6 +59,11 @@ Proof. exact process_atropos_rooted. Qed.
 Theorem C02_V_initially : forall ep v st, V (genesis ep v) /\ V (reset st ep v).
 Proof. intros; split; [apply V_genesis | apply V_reset_state]. Qed.
 
+(* the hypotheses elinv and V of the theorems above hold in every state reachable by any operation sequence *)
+Theorem C02_invariants_hold_on_every_run : forall cap pol smp epoch raw ops,
+  let st := i_st (run_inst cap pol smp (start epoch raw) ops) in elinv st /\ V st.
+Proof. intros. apply run_good. apply start_good. Qed.
+
 (* restart: the blocks Bootstrap may emit obey the same numbering *)
 Theorem C02_bootstrap_frames : forall cap end_block es p r bl st',
   bootstrap cap end_block es p = (r, bl, st') ->
@@ -82,3 +87,4 @@ Print Assumptions C02_frames_consecutive.
 Print Assumptions C02_bootstrap_frames.
 Print Assumptions C02_atropos_is_root.
 Print Assumptions C02_V_initially.
+Print Assumptions C02_invariants_hold_on_every_run.
